@@ -125,7 +125,7 @@ fn run_churn(deny_focus: bool, full: bool) -> SimResult {
     for nd in &nodes {
         let mut s = nd.swarm.borrow_mut();
         let b = s.behaviour_mut();
-        for (k, p) in [&mut b.p1, &mut b.p2, &mut b.p3].into_iter().enumerate() {
+        for (k, p) in b.fields_mut().into_iter().enumerate() {
             let mut c = p.cfg.lock().unwrap();
             for j in 0..n {
                 if j != nd.idx && (j + k) % 2 == 0 {
@@ -260,7 +260,7 @@ fn run_churn(deny_focus: bool, full: bool) -> SimResult {
     for nd in &w.nodes {
         let s = nd.swarm.borrow();
         let b = s.behaviour();
-        for p in [&b.p1, &b.p2, &b.p3] {
+        for p in b.fields() {
             p.cfg.lock().unwrap().deny = [0; 4];
         }
     }
@@ -296,10 +296,11 @@ fn run_churn(deny_focus: bool, full: bool) -> SimResult {
 pub fn with_field<R>(nd: &Node<Composite>, k: usize, f: impl FnOnce(&mut Probe) -> R) -> R {
     let mut s = nd.swarm.borrow_mut();
     let b = s.behaviour_mut();
+    let [p1, p2, p3] = b.fields_mut();
     match k {
-        0 => f(&mut b.p1),
-        1 => f(&mut b.p2),
-        _ => f(&mut b.p3),
+        0 => f(p1),
+        1 => f(p2),
+        _ => f(p3),
     }
 }
 
@@ -438,7 +439,7 @@ fn final_oracles(w: &World) -> SimResult {
         {
             let s = nd.swarm.borrow();
             let b = s.behaviour();
-            let plans: Vec<usize> = [&b.p1, &b.p2, &b.p3].iter().map(|p| p.cfg.lock().unwrap().close_plan.iter().filter(|x| **x).count()).collect();
+            let plans: Vec<usize> = b.fields().iter().map(|p| p.cfg.lock().unwrap().close_plan.iter().filter(|x| **x).count()).collect();
             let mut got: BTreeMap<(u8, ConnectionId), usize> = BTreeMap::new();
             let mut closed_seen: BTreeSet<(u8, ConnectionId)> = BTreeSet::new();
             for (_, e) in &log.beh {
